@@ -61,6 +61,11 @@ def generate(g, tier):
             if tight: m = dict(expect='either')     # a limit near the program's own nesting: only the side effects are judged
             files[src] = text
             if m.get('expect') == 'fail' and g.chance(0.35): out = r.choice(['newdir/o.txt', 'build/deep/er/payload.txt', 'proj/out/o.txt'])
+            # files that merely sit next to the output path (a backup, a temporary name, an editor's swap file) are none of the command's business
+            if g.chance(0.5):
+                stem = out.rsplit('.', 1)[0]
+                for sib in r.sample([stem + '.tmp', out + '.tmp', out + '.bak', out + '~', stem + '.part', '.' + out.split('/')[-1] + '.swp', stem, stem + '.txt.new'], 2):
+                    if sib not in pre and sib != out and not any(i['output'] == sib for i in invs): pre[sib] = 'SIBLING ' + sib
             stale = r.choice([None, 'STALE PAYLOAD\n', ''])
             if stale is not None and out not in pre and not any(i['output'] == out for i in invs): pre[out] = stale
             inv = dict(cmd='compile', file=src, output=out)
